@@ -1,4 +1,5 @@
 import Skv.Props.C17
+import Skv.Lemmas.Arena
 /-!
 # C15 — a failed commit leaves no trace and does not poison later commits (pipeline level)
 
@@ -7,9 +8,9 @@ a commit refused by the conflict check changes nothing observable; every failure
 pipeline invariants (so every later commit is covered by the C05 / C17 theorems: the pipeline is
 not poisoned); a failed call never reports success.  What is *false* of the code and recorded as
 a known finding: entries of a batch whose apply failed after a prefix become visible
-(`finding_failed_commit_visible`, shared with C05).  File-level faults (short write, ENOSPC,
-fsync error) and the memtable-arena poisoning are store-level and handled by the C15 harness
-streams, not by this model.
+(`finding_failed_commit_visible`, shared with C05).  The memtable arena (a batch too large for any memtable, a batch
+whose fit depends on the tower heights drawn) is covered by the arena-accounting model below.  File-level
+faults (short write, ENOSPC, fsync error) are store-level and not modelled.
 -/
 open PState
 
@@ -54,3 +55,37 @@ theorem C15_first_completion_wins (s : PState) (f : Nat) (r r' : CRes)
       have hx : (x.1 == f) = true := @List.find?_some _ (fun p => p.1 == f) x s.completed hf
       exact ⟨x, List.mem_of_find?_eq_some hf, hx⟩
   simp [hany, h]
+
+
+/-! ## batches measured against the memtable arena (`fix: d15184a`, `fix: f5e9e07`) -/
+
+/-- **a refused batch could never have been applied.**  What the admission check of `write` turns away
+(`Error::BatchTooLarge`, before anything is logged) does not fit an empty memtable of the configured size
+whatever tower heights are drawn: refusing it loses nothing. -/
+theorem C15_refused_batch_can_never_fit (c : ArenaCfg) (cap : Nat) (es : List (Nat × Nat))
+    (h : fitsEmpty c cap c.empty (es.map (·.1)) = false) : addAll c cap c.empty es = none :=
+  addAll_refused c es c.empty c.empty cap (Nat.le_refl _) h
+
+/-- **an admitted batch is always applied.**  The memtable `apply` rotates to — sized by
+`arena_size_for`, never smaller than the configured size — takes the batch whatever heights are drawn. -/
+theorem C15_admitted_batch_is_applied (c : ArenaCfg) (cap : Nat) (es : List (Nat × Nat))
+    (hh : ∀ e ∈ es, e.2 ≤ c.maxH) :
+    (addAll c (max cap (arenaSizeFor c c.empty (es.map (·.1)))) c.empty es).isSome = true :=
+  addAll_sized c es c.empty _ hh (Nat.le_max_right _ _)
+
+/-- the admission check is not stricter than it must be: what it lets through does fit the configured
+size when every node gets the shortest tower -/
+theorem C15_admission_is_tight (c : ArenaCfg) (cap : Nat) (ds : List Nat)
+    (h : fitsEmpty c cap c.empty ds = true) : (addAll c cap c.empty (ds.map (fun d => (d, 1)))).isSome = true :=
+  addAll_admitted c ds c.empty cap h
+
+/-- the defect repaired by `f5e9e07`, kernel-checked with the sizes of the code (node 40..192 bytes,
+sentinels 399): three entries of 100 bytes are admitted for a 1000-byte arena and fit it with towers of
+height one, but not when the first node draws a tower of height 12 — and they always fit the arena
+`arena_size_for` asks for -/
+theorem fixed_fit_depended_on_tower_heights :
+    let c : ArenaCfg := ⟨40, 8, 20, 399⟩
+    fitsEmpty c 1000 c.empty [100, 100, 100] = true ∧
+      (addAll c 1000 c.empty [(100, 1), (100, 1), (100, 1)]).isSome = true ∧
+      addAll c 1000 c.empty [(100, 12), (100, 1), (100, 1)] = none ∧
+      arenaSizeFor c c.empty [100, 100, 100] = 1296 := by decide
